@@ -1,23 +1,44 @@
 (* PropsC16.v — C16: a per-field merge policy applies to exactly the named subtree.
    Statements only; proofs are in ProofsPolicy.v.
 
-   PARTIAL.  Proved for ALL trees, both global and named policies, and every policy on ONE
-   top-level name (any name that is not index-like, a wildcard or empty): the options in force
-   at the named field are the named policy, and everything at and below it is merged exactly
-   as if the named policy were the global one; at every other named field the global policy
-   stays in force and the rest of the merge is the global-policy merge (which C01 proves equal
-   to the plain-tree specification); wherever no field tree is in force the merge is the
-   global-policy merge.  NOT proved: dotted field paths of depth > 1, indices and wildcards in
-   the path, several policies at once; those are decided by the correspondence run (merge_full
-   against the implementation on random trees, paths and policy combinations) and by the
-   evaluation of the plain-tree specification spec_merge_at per case.  F31 is the known
-   deviation at list levels. *)
+   PARTIAL.  Proved for ALL trees, all global and named policies, and every policy on a dotted
+   path of names n1.n2...nk (names that are not index-like, wildcards or empty; policy_path is
+   the handling tree the implementation builds for it, as reported by the verif hook in every
+   case of the stream): walking down the path keeps the global policy in force until the last
+   name; there the named policy takes over and everything at and below it is merged exactly as
+   if the named policy were the global one; stepping off the path at any depth - in particular
+   at a setting that merely shares the last name at another depth - leaves the global-policy
+   merge (which C01 proves equal to the plain-tree specification).  NOT proved: indices and
+   wildcards in the path, several policies at once, list levels; those are decided by the
+   correspondence run (merge_full against the implementation on random trees, paths and
+   policy combinations) and by the evaluation of the plain-tree specification spec_merge_at
+   per case.  F31 is the known deviation at list levels. *)
 From Ucfg Require Import Base ParseInt Consts Field Tree PathOps Merge ProofsPolicy.
 
 Theorem c16_no_tree_is_global_policy_partial : forall v o old,
   m_ft o = None -> merge_full o old v = merge_plain o old v.
 Proof. exact merge_full_no_tree. Qed.
 Print Assumptions c16_no_tree_is_global_policy_partial.
+
+(* a policy on a dotted path of names, for all trees: one step of the walk *)
+Theorem c16_path_policy_partial : forall h h', (h' < 256)%N -> forall path, Forall name_ok path -> path <> [] ->
+  match path with
+  | [] => True
+  | n :: r =>
+    (forall old v,
+        o' <- field_opts_override {| m_h := h; m_ft := Some (policy_path path h') |} n (-1) ;;
+        merge_full o' old v
+        = match r with
+          | [] => merge_plain (plain_opts h') old v
+          | _ => merge_full {| m_h := h; m_ft := Some (policy_path r h') |} old v
+          end) /\
+    (forall k old v, name_ok k -> k <> n ->
+        o' <- field_opts_override {| m_h := h; m_ft := Some (policy_path path h') |} k (-1) ;;
+        merge_full o' old v
+        = merge_plain {| m_h := h; m_ft := None |} old v)
+  end.
+Proof. exact path_policy. Qed.
+Print Assumptions c16_path_policy_partial.
 
 (* a policy on one top-level name, for all trees and all values *)
 Theorem c16_single_name_policy_partial : forall h name h', name_ok name -> (h' < 256)%N ->
